@@ -12,7 +12,10 @@ SKEL = ["queue/delay_queue.go"]
 
 # The harness confirms timing-sensitive complaints itself before they reach the pipeline: it is told where
 # the Lean acceptor is (the freshly built driver, else the reference copy) and re-executes a scenario whose
-# only complaints are timing-sensitive (wake-up bound, watchdog, order of near deadlines, model replay);
+# only complaints are timing-sensitive: the order of near deadlines, the model replay, and — only when the
+# scheduling jitter measured during the scenario exceeded 200 ms — the second-scale bounds (wake-up, cancellation
+# promptness, capacity probe, watchdog).  A second-scale bound missed on a quiet machine is hard evidence and is
+# never re-executed (a lost wake-up is a race; a clean re-run must not discard it);
 # see harness/delayq/main.go `confirm` and the header of lean/Driver/DelayQ.lean.
 DRIVER_ENV = {"VERIF_DRIVER": _os.pathsep.join([_core.DRIVER, _os.path.join(_core.VERIF, "build", "driver.ref")])}
 
@@ -41,7 +44,7 @@ TEXT = ("DelayQueue share (Ekit/Props/C09b.lean, same transition system as C08, 
         "Dequeues deliver ALL elements exactly once, and an empty bounded queue accepts and delivers exactly cap elements "
         "(c09_drains_at_quiescence, c09_accepts_and_delivers_capacity). "
         "Tied to the code by the regenerated sync skeletons of every function of delay_queue.go and by timed concurrent "
-        "histories of the real queue (wake-up within 2 s of the enabling event, no hang, capacity probe after cancellations).")
+        "histories of the real queue (wake-up within 2 s of the enabling event, return within 2 s of the end of the call's context, no hang, capacity probe after cancellations; directed scenarios race the waiter against its waker and cancel the consumer that received a wake-up).")
 
 NOTE = (" DelayQueue share: wall-clock promptness, scheduler fairness and time.Timer accuracy are not expressible; proved is "
         "enabledness (c09_delay_promptness_partial) and completion of a woken call in the ABSENCE of interference (C09bRev), "
